@@ -6,8 +6,10 @@ Line protocol for C03 (write-back layer of the phase-equilibrium code).  Floats 
   cfg <n> light=.. heavy=.. hs=.. vle=.. lle=.. mw=..      -> ok
   state g=.. l=.. L=.. s=..                                -> st g=.. l=.. L=.. s=..
   begin                                                     -> ok          (snapshot for the verdict flags)
-  vle.begin | vle.end | lle.begin | lle.end | sle.begin | sle.end      -> st ..
-  vle.setup                                                 -> st .. idx=..
+  vle.begin <obj> | vle.end | lle.begin | lle.end | sle.begin <obj> | sle.end      -> st ..
+  vle.setup                                                 -> st .. idx=.. reuse=0|1|-   (cached `_nonzero`/`_index` of <obj>)
+  vle.bublim V <y> | vle.dewlim V <x>                        -> st ..
+  sle.setup j                                               -> ok idx=.. pure=b | err nosolute|notindexed idx=.. pure=b
   vle.solve <raw>                                           -> v <clipped>
   vle.setflows reg|<v> | vle.allvap | vle.allliq | vle.frac V | vle.lever x0 <y>
   vle.condense f | vle.vaporise f                           -> st ..   (or `err infeasible`)
@@ -29,6 +31,10 @@ structure St where
   reg : Option (VReg Float) := none
   total : Option Float := none
   snap : Rows Float := { g := [], l := [], L := [], s := [] }
+  vcaches : List (Nat × VCache) := []      -- per VLE object of the case: `_nonzero`, `_index`
+  scaches : List (Nat × SCache) := []      -- per SLE object
+  vobj : Nat := 0
+  sobj : Nat := 0
 
 def parseVec (s : String) : Option (List Float) := (splitComma s).mapM parseFloat?
 def parseIdx (s : String) : Option (List Nat) := (splitComma s).mapM (·.toNat?)
@@ -93,7 +99,7 @@ def stepVle (st : St) (ev : VEv Float) (mon : String := "") (tag : String := "")
     match vleStep st.cls (st.rows, reg) ev with
     | .error .infeasible => (st, "err infeasible" ++ tag)
     | .error .noSolve => (st, "err no-solve")
-    | .error .branch => (st, "err branch")
+    | .error _ => (st, "err branch")
     | .ok (rows, reg') =>
       let st' := { st with rows := rows, reg := some reg' }
       (st', ans st' (tag ++ mon))
@@ -106,7 +112,8 @@ def step (st : St) (line : String) : St × String :=
           (kv "vle" rest) >>= parseIdx, (kv "lle" rest) >>= parseIdx, (kv "mw" rest) >>= parseVec with
     | some n, some light, some heavy, some hs, some vle, some lle, some mw =>
       let wf := light.all (fun i => !heavy.contains i) && vle.all (fun i => !heavy.contains i && !light.contains i)
-      ({ st with cls := { n := n, light := light, heavy := heavy, vle := vle, lle := lle, hs := hs, mw := mw } },
+      ({ st with cls := { n := n, light := light, heavy := heavy, vle := vle, lle := lle, hs := hs, mw := mw },
+                 vcaches := [], scaches := [] },
        "ok" ++ unmet wf "classes-disjoint")
     | _, _, _, _, _, _, _ => (st, "bad-op")
   | "state" :: rest =>
@@ -116,13 +123,23 @@ def step (st : St) (line : String) : St × String :=
   | ["begin"] => ({ st with snap := st.rows, reg := none, total := none }, "ok")
   | ["end", op] => (st, ans st (verdict st op))
   -- ------------------------------------------------------------------ VLE
-  | ["vle.begin"] => ({ st with reg := none }, ans st)
+  | ["vle.begin"] => ({ st with reg := none, vobj := 0 }, ans st)
+  | ["vle.begin", o] =>
+    match o.toNat? with
+    | some o => ({ st with reg := none, vobj := o }, ans st)
+    | none => (st, "bad-op")
   | ["vle.end"] => (st, ans st)
   | ["vle.unmodelled"] => (st, "unmodelled")
   | ["vle.setup"] =>
-    let (rows, reg) := vleSetup st.cls st.rows
-    let st' := { st with rows := rows, reg := some reg }
-    (st', ans st' (s!" idx={showIdx reg.idx}" ++ s!" tag:N{reg.idx.length}"))
+    let cache := (st.vcaches.lookup st.vobj)
+    let ((rows, reg), cache', reused) := vleSetupC st.cls cache st.rows
+    let decided := (List.range st.cls.n).any fun i => isNZ (get reg.mol i)
+    let vc := match cache' with
+      | some k => (st.vobj, k) :: st.vcaches.filter (fun p => p.1 != st.vobj)
+      | none => st.vcaches
+    let st' := { st with rows := rows, reg := some reg, vcaches := vc }
+    (st', ans st' (s!" idx={showIdx reg.idx} reuse={if decided then bit reused else "-"}" ++ s!" tag:N{reg.idx.length}"
+                   ++ (if reused then " tag:index-reused" else "")))
   | ["vle.solve", raw] =>
     match parseVec raw, st.reg with
     | some raw, some reg =>
@@ -157,6 +174,20 @@ def step (st : St) (line : String) : St × String :=
           (if reg.idx.any (fun i => get reg.mol i < reg.fmol * s * get y i) then " tag:lever-limited" else "")
         | .error _ => ""
       stepVle st (.lever x0 y) mon
+    | _, _, _ => (st, "bad-op")
+  | ["vle.bublim", V, y] =>
+    match parseFloat? V, parseVec y, st.reg with
+    | some V, some y, some reg =>
+      stepVle st (.bubbleLimited V y)
+        (unmet (V >= 0.0 && reg.fmol >= 0.0 && reg.idx.all fun i => get y i >= 0.0) "limited-V-and-composition-nonneg")
+        " tag:bubble-limited"
+    | _, _, _ => (st, "bad-op")
+  | ["vle.dewlim", V, x] =>
+    match parseFloat? V, parseVec x, st.reg with
+    | some V, some x, some reg =>
+      stepVle st (.dewLimited V x)
+        (unmet (V <= 1.0 && reg.fmol >= 0.0 && reg.idx.all fun i => get x i >= 0.0) "limited-V-and-composition-nonneg")
+        " tag:dew-limited"
     | _, _, _ => (st, "bad-op")
   | ["vle.condense", f] =>
     match parseFloat? f with
@@ -198,11 +229,30 @@ def step (st : St) (line : String) : St × String :=
       | .ok rows => let st' := { st with rows := rows }; (st', ans st' extra)
       | .error _ => (st, "err branch")
   -- ------------------------------------------------------------------ SLE
-  | ["sle.begin"] => (st, ans st)
+  | ["sle.begin"] => ({ st with sobj := 0 }, ans st)
+  | ["sle.begin", o] =>
+    match o.toNat? with
+    | some o => ({ st with sobj := o }, ans st)
+    | none => (st, "bad-op")
+  | ["sle.setup", j] =>
+    match j.toNat? with
+    | some j =>
+      let cache := (st.scaches.lookup st.sobj).getD {}
+      let (cache', res) := sleSetupC st.cls cache st.rows j
+      let st' := { st with scaches := (st.sobj, cache') :: st.scaches.filter (fun p => p.1 != st.sobj) }
+      let tail := s!" idx={showIdx cache'.idx} pure={bit cache'.pure}"
+      (st', match res with
+        | .ok _ => "ok" ++ tail ++ (if cache' == cache then " tag:sle-index-reused" else "")
+        | .error .noSolute => "err nosolute" ++ tail
+        | .error .notIndexed => "err notindexed" ++ tail
+        | .error _ => "err other" ++ tail)
+    | none => (st, "bad-op")
   | ["sle.end"] => (st, ans st)
   | ["sle.unmodelled"] => (st, "unmodelled")
   | ["sle.update", j, idx, x, msol] =>
-    match j.toNat?, (if idx == "all" then some none else (parseIdx idx).map some), parseFloat? x, parseFloat? msol with
+    let regIdx := ((st.scaches.lookup st.sobj).getD {}).idx
+    match j.toNat?, (if idx == "all" then some none else if idx == "reg" then some (some regIdx) else (parseIdx idx).map some),
+          parseFloat? x, parseFloat? msol with
     | some j, some idx, some x, some msol =>
       let m := get st.rows.l j + get st.rows.s j
       let st' := { st with rows := sleUpdate st.cls st.rows j idx x }
